@@ -1,6 +1,6 @@
 """C09 — input chords (defchords) fire for exactly the pressed set."""
 from checks.common import lsim_cases, trace_has_output
-import itertools
+import itertools, random
 
 V2KEYS = {'a': 30, 's': 31, 'd': 32, 'f': 33, 'g': 34, 'h': 35}
 ACT = {str(i): ('U%d' % ord(str(i))) for i in range(1, 7)}      # chord actions: (unicode <digit>), a non-idempotent output nothing else produces
@@ -203,6 +203,31 @@ def v2_random_case(rng, i):
             'tags': {'mode': 'chords-v2-random', 'nchords': len(chords)}}
 
 
+def v2_release_same_ms_case(i, tier):
+    """defchordsv2: the chord completes early in its timeout and all participants (or several of them) are let go within one
+    millisecond, so that as many events arrive as the chord consumed: the chord's key must still go up with the deciding release,
+    not when the old timeout would have ended.  Deterministic shapes with their own random stream."""
+    rng = random.Random(9241 * i + (0 if tier == 'quick' else 500009))
+    ks = [('a', 's'), ('d', 'f'), ('a', 's', 'd'), ('f', 'g', 'h')][i % 4]
+    rule = ['all-released', 'first-release'][(i // 4) % 2]
+    timeout = [120, 200, 400][(i // 8) % 3]
+    tgt = (ks, '1', timeout, rule, ())
+    cfg = ('(defcfg concurrent-tap-hold yes)\n(defsrc a s d f g h k l)\n(deflayer base a s d f g h k l)\n'
+           '(defchordsv2 (%s) z %d %s ())' % (' '.join(ks), timeout, rule))
+    h = ['t200']
+    order = list(ks); rng.shuffle(order)
+    for j, k in enumerate(order):
+        h += ['d%d' % V2KEYS[k]] + (['t%d' % rng.choice([1, 20, 50])] if j + 1 < len(order) else [])
+    h += ['t%d' % rng.choice([1, 2, 10])]
+    rel = list(ks); rng.shuffle(rel)
+    for k in rel:
+        h += ['u%d' % V2KEYS[k]]           # no time passes between the releases
+    h += ['t%d' % (timeout + 300), 'q']
+    return {'id': 'c09-v2relsame-%d' % i, 'cfg': cfg, 'hist': h, 'sub': 'ksim',
+            'v2rel': {'target': tgt, 'out': RELOUT['1']},
+            'tags': {'mode': 'chords-v2-release-same-ms', 'rule': rule}}
+
+
 def v2_two_chords_case(rng, i):
     """two disjoint chords held at the same time, let go in activation order or the other way round: each goes up per its own rule"""
     r1, r2 = rng.choice(['first-release', 'all-released']), rng.choice(['first-release', 'all-released'])
@@ -235,6 +260,8 @@ def gen_cases(rng, tier):
         cases.append(v2_release_case(rng, i))
     for i in range(24 if tier == 'quick' else 600):
         cases.append(v2_two_chords_case(rng, i))
+    for i in range(48 if tier == 'quick' else 960):
+        cases.append(v2_release_same_ms_case(i, tier))
     # more than 16 chords that contain the pressed keys (the candidate list of the implementation holds 16): the chord that is
     # exactly the pressed set, written after them, still fires when the timeout passes or a participant is released
     import itertools
